@@ -401,7 +401,11 @@ def run(ctx):
     for cid, rng in ctx.cases([('alias', r) for r in range(12 if ctx.tier == 'quick' else 250)]):
         mon.cid = cid
         S = samples(F, rng, path, n=40)
-        for kind in ('int', 'float', 'rfi'):
+        with np.errstate(all='ignore'):
+            # a sample that already went through the generic transformation with a NumPy function (its limits went through
+            # the same function and may be held in another container type than after loading)
+            S['xform'] = F.transform.transform(S['rfi'], [0, 1, 2], [np.sqrt, np.log1p, np.cbrt][int(rng.integers(3))])
+        for kind in ('int', 'float', 'rfi', 'xform'):
             d = S[kind]
             crv = [zoo.make_curve(1.0, 2.0)]
             makers = [
